@@ -20,7 +20,7 @@ RULE_TEXT = (
     "component [n], [n] as A, component [n] as A, component n as A) per component x every arrow form (6) x every reference form per "
     "endpoint (bracketed, bare, alias) x declaration-before/after-use, plus the three-line alias/name mixtures. Random "
     "part: Hypothesis relation over 1-8 components (identifier, dotted, or blank-containing bracketed names with alias), "
-    "random declaration, reference and arrow forms, random line order, 1-3 blanks between tokens, arbitrary text (also lines that look like declarations and arrows, and random unicode) outside the "
+    "random declaration, reference and arrow forms, random line order, 1-3 blanks between tokens (0-3 around arrows), blanks and tabs in front of and behind lines, identifiers with combining marks / a middle dot, arbitrary text (also lines that look like declarations and arrows, and random unicode) outside the "
     "tags; negative cases with a tag removed must raise PumlParsingError; a quarter of the random cases and one exhaustive "
     "family are sequences of 2-3 diagrams parsed one after the other (fresh parser each) in which an alias token of one "
     "diagram is a component name of another. Oracle: the generated relation itself "
@@ -28,7 +28,7 @@ RULE_TEXT = (
     "name in another, or a dotted name occurs, or >= 2 arrow forms are used."
 )
 ASSUMPTIONS = [
-    "lines carry no leading/trailing blanks; one diagram block per file (text outside it may mention a tag, but contains no second start/end pair)",
+    "one diagram block per file (text outside it may mention a tag, but contains no second start/end pair)",
     "alias tokens are disjoint from the component names of the same diagram",
     "names containing blanks are declared with an alias and referenced through it (as in the repository's fixtures)",
 ]
@@ -84,6 +84,9 @@ def render(spec) -> tuple:
                                   " " * ar.get("sp1", 1), " " * ar.get("sp2", 1)))
     order = spec.get("order") or list(range(len(lines)))
     lines = [lines[i] for i in order if i < len(lines)] + [l for i, l in enumerate(lines) if i not in order]
+    # blanks / tabs in front of and behind a line are not part of it
+    pads = spec.get("pads") or []
+    lines = [(pads[i % len(pads)][0] + l + pads[i % len(pads)][1]) if pads else l for i, l in enumerate(lines)]
     body = "\n".join(lines)
     start = "" if spec.get("drop") == "start" else "@startuml\n"
     end = "" if spec.get("drop") == "end" else "\n@enduml"
@@ -178,6 +181,14 @@ def exh_shard(arg, stt, deadline) -> None:
         order = list(range(nl + 1)) if decl_first else [nl] + list(range(nl))
         spec = {"components": comps, "arrows": [{"a": 0, "b": 1, "arrow": arrow, "ra": ra, "rb": rb}], "order": order}
         stt.record(spec, check_case(spec), enumerated=True, sample=(i % 211 == 1))
+        # the same diagram with no blank on one or both sides of the arrow, and with blanks / a tab around every line
+        for sp1, sp2, pad in ((0, 0, None), (0, 1, None), (1, 0, None), (1, 1, ["", " "]), (1, 1, ["  ", ""]), (0, 0, ["\t", "  "])):
+            v = dict(spec, arrows=[dict(spec["arrows"][0], sp1=sp1, sp2=sp2)])
+            if pad:
+                v["pads"] = [pad]
+            r = check_case(v)
+            r["labels"] = r["labels"] + ["no-blank-at-arrow" if 0 in (sp1, sp2) else "blanks-around-lines"]
+            stt.record(v, r, enumerated=True, sample=(i % 809 == 1))
         # second arrow: same dependor referenced the other way, to a third component
         for ra2 in refs:
             if ra2 == ra or (ra2 == "alias" and "as" not in d1):
@@ -210,6 +221,10 @@ def seq_shard(arg, stt, deadline) -> None:
 # ------------------------------------------------------------------------------ random
 
 IDENTS = ["a", "b", "ab", "core", "util", "x1", "my_comp", "A", "Bee", "svc2"]
+# identifiers (hence module names) with characters that are not 'word' characters for the re module: combining marks,
+# the middle dot
+UNICODE_IDENTS = ["col\u00b7legi", "\u0939\u093f\u0902\u0926\u0940", "\u0e02\u0e49\u0e2d\u0e21\u0e39\u0e25", "na\u00efve", "\u6a21\u5757", "e\u0301te"]
+assert all(x.isidentifier() for x in UNICODE_IDENTS)
 DOTTED = ["src.a", "src.a.b", "src.ab", "pkg.core.util", "src.A.fileA", "p.q", "src.B", "src.b.c2", "x.y.z"]
 BLANKED = ["Module B", "my comp 2"]
 ALIASES = ["AL1", "al2", "M_B", "zz", "Q9", "al_3", "W", "k2"]
@@ -240,6 +255,8 @@ def diagrams(draw, shared_tokens=False):
     n = draw(st.integers(1, 8))
     style = draw(st.sampled_from(["ident", "dotted", "mixed"]))
     pool = IDENTS if style == "ident" else (DOTTED if style == "dotted" else IDENTS + DOTTED + BLANKED)
+    if draw(st.integers(0, 3)) == 0:
+        pool = pool + UNICODE_IDENTS + ["src." + UNICODE_IDENTS[0], UNICODE_IDENTS[1] + ".core"]
     if shared_tokens:
         # component names and alias tokens come from one pool (disjoint within a diagram, not across diagrams)
         pool = pool + ALIASES[:4]
@@ -265,7 +282,7 @@ def diagrams(draw, shared_tokens=False):
                 return draw(st.sampled_from(opts))
 
             arrows.append({"a": a, "b": b, "arrow": draw(st.sampled_from(ARROWS)), "ra": ref(comps[a]), "rb": ref(comps[b]),
-                           "sp1": draw(st.integers(1, 3)), "sp2": draw(st.integers(1, 3))})
+                           "sp1": draw(st.integers(0, 3)), "sp2": draw(st.integers(0, 3))})
     # a component without declaration must be referenced, otherwise it is not part of the diagram: declare it
     used = {x for ar in arrows for x in (ar["a"], ar["b"])}
     for i, c in enumerate(comps):
@@ -281,7 +298,11 @@ def diagrams(draw, shared_tokens=False):
         pre = "The diagram begins after @startuml below.\n" + pre
     if drop is None and draw(st.integers(0, 5)) == 0:
         post = post + "old draft:\n[ghost] --> [ghost9]\ncomponent ghost7\n(closed by the @enduml tag)\n"
-    return {"components": comps, "arrows": arrows, "order": order, "pre": pre, "post": post, "drop": drop}
+    out = {"components": comps, "arrows": arrows, "order": order, "pre": pre, "post": post, "drop": drop}
+    if draw(st.integers(0, 2)) == 0:
+        blank = st.sampled_from(["", "", " ", "  ", "\t", " \t"])
+        out["pads"] = [[draw(blank), draw(blank)] for _ in range(draw(st.integers(1, 4)))]
+    return out
 
 
 @st.composite
